@@ -71,7 +71,9 @@ class A(Adapter):
     def configs(self):
         base = [cfg("g5m200", True, g=5, mv=200, tl=None, rew="dense"), cfg("g3m20", True, g=3, mv=20, tl=None, rew="dense"),
                 cfg("g2m5", g=2, mv=5, tl=None, rew="dense"), cfg("g4m50sparse", g=4, mv=50, tl=None, rew="sparse"),
-                cfg("g3m3", g=3, mv=3, tl=None, rew="dense")]
+                cfg("g3m3", g=3, mv=3, tl=None, rew="dense"),
+                # sparse reward on a tiny, barely scrambled puzzle: the goal is entered (and, from a solved reset, left) often
+                cfg("g2m4sparse", True, g=2, mv=4, tl=None, rew="sparse")]
         return cross_tl(base, [1, 2, 3, 7])
 
     def build(self, c):
